@@ -69,6 +69,12 @@ RECURSIVE CleanCorrect(_)
 CleanCorrect(t) == t.t = "N" => /\ (~t.d => t.h = Recompute(t))
                                 /\ CleanCorrect(t.l) /\ CleanCorrect(t.r)
 
+\* ... and dirt is closed upwards (which is why mark_lineage_as_dirty may stop at the first dirty node and
+\* calculate_lazy_hashes need not look below a clean one)
+RECURSIVE DirtyUpClosed(_)
+DirtyUpClosed(t) == t.t = "N" => /\ (~t.d => ~AnyDirty(t.l) /\ ~AnyDirty(t.r))
+                                 /\ DirtyUpClosed(t.l) /\ DirtyUpClosed(t.r)
+
 \* inclusion proof of key k, leaf to root (blob.rs:1155): per layer the side and hash of the
 \* sibling and the combined (parent) hash. Side 0 = Left, 1 = Right (blob.rs:67)
 RECURSIVE Layers(_, _)
@@ -206,7 +212,7 @@ Fail(op) == /\ ~Guard(tree, op)
 \* ------------------------------------------------------------- properties
 RefinesMap == KV(tree) = PmKV(pm)
 IntegrityInv == Integrity(tree)
-CleanHashesInv == CleanCorrect(tree)
+CleanHashesInv == CleanCorrect(tree) /\ DirtyUpClosed(tree)
 FailedIsStutter == [][~last'.ok => tree' = tree /\ pm' = pm]_vars
 ReloadEquivalent == [][last'.op.k = "reload" => last'.ok /\ tree' = tree /\ pm' = pm]_vars
 AfterCalc == last.op.k = "calc" /\ tree.t # "E"
